@@ -115,3 +115,21 @@ func VerifAllocNode(pd *PDCoordinator, ns *cluster.PartitionMetaInfo, nodes map[
 func VerifRebalanceRound(pd *PDCoordinator) (bool, bool) {
 	return pd.dpm.rebalanceNamespace(pd.monitorChan)
 }
+
+// VerifCurrentPartitionNodes is DataPlacement.getCurrentPartitionNodes: the previous layout
+// (in-sync list of every partition) that the coordinator hands to the placement function.
+func VerifCurrentPartitionNodes(pd *PDCoordinator, ns string) ([][]string, *cluster.CoordErr) {
+	return pd.dpm.getCurrentPartitionNodes(ns)
+}
+
+// VerifDrainCheckTrigger empties the "check namespaces now" channel (nothing consumes it when
+// no background goroutine runs; API calls such as ChangeNamespaceMetaParam would block on it).
+func VerifDrainCheckTrigger(pd *PDCoordinator) {
+	for {
+		select {
+		case <-pd.checkNamespaceFailChan:
+		default:
+			return
+		}
+	}
+}
